@@ -89,6 +89,9 @@ EXTRA = {
 EXTRA2 = {
     "C02": "where an OSError raised by a body write lands in handle(), and handle_error evaluated with the mark send_headers leaves on the request (no error page / second record after the head)",
     "C04": "spawn_worker evaluated for fork() == 0 with the signal-mask / handler calls traced in order (stop signals blocked or the child's own from fork() to init_process()); eventlet's graceful wait evaluated with two rule-supplied acceptors (idle + serving): every acceptor waited for",
+    "C05": "chunk-framing / trailer errors raised under wsgi.input close the connection (landing clause of the chunk parser's exceptions); every regex constant of the http layer parsed and searched for catastrophic backtracking (an unbounded repetition of an alternative that is itself an unbounded repetition)",
+    "C07": "Message.should_close() depends only on must_close, the version and the Connection options at the time it is asked (no memo)",
+    "C10": "the timeout scan judges each worker by its own generation's timeout (also 0 = disabled) after a reload",
     "C06": "the header cap as a property of the stream (Request.parse evaluated from after a read for buffers of cap+1..3 bytes without terminator and terminators found at cap / cap+1); structural: a branch on the parser's buffered input before the threaded worker parks a connection",
     "C08": "ambiguity invariant on every accepted header list (no two spellings of one environ key outside header_map=dangerous); forwarder pipeline Message.__init__ -> parse_headers -> header loop of create() evaluated end to end for 81 cells of header_map x peer x allow list x forwarder_headers",
     "C09": "late OSError routing (shared with C02)",
@@ -97,7 +100,7 @@ EXTRA2 = {
     "C13": "graceful wait evaluated with two rule-supplied futures (running + queued): the first futures.wait of every path is given both; the lost-race path (connection already reaped) evaluated; structural: connections still registered with the poller are dispatched or closed before run() returns",
     "C14": "the hand-off as a round trip in both modes: start() evaluated in the very environment reexec() writes (os.environ as a dict, systemd.listen_fds per the sd_listen_fds protocol) must arrive at the descriptors the listeners really have",
     "C15": "'//'-prefixed request-targets with control bytes; repeated-field joins incl. an empty earlier value; SCRIPT_NAME as a prefix of path segments",
-    "C16": "structural: a setting read off the parsed command-line namespace by an application hook is matched by a read of the merged configuration in that class's load_config",
+    "C16": "Config properties with an environment fall-back evaluated for stored True / False x the environment variable (the stored value wins); structural: a setting read off the parsed command-line namespace by an application hook is matched by a read of the merged configuration in that class's load_config",
     "C17": "structural: an exclusive step (flock / link / O_EXCL) between the check of the existing pid file and the publication of the own one",
     "C19": "where an OSError raised by a body write lands and what handle_error does for a started response (shared with C02)",
     "C20": "identity-table rows where the user has no passwd entry (pwd.getpwuid raises: a rule-supplied raising atom) and rows with real != effective ids",
